@@ -245,3 +245,22 @@ def run_c20(v):
         "samples": s["samples"], "exhaustive": False,
     })
     v.assumptions += ["aggregations and cursors are compared as serialised strings"]
+
+
+def run_c29(v):
+    quick = v.tier == "quick"
+    mc = lib.tlc_mc("MC_Vector.tla", "MC_Vector.cfg", timeout=3000, coverage=False)
+    lib.require_mc_ok(mc, "MC_Vector")
+    s = _family(v, "vector", {"C29"}, 10 if quick else 150, 24 if quick else 60)
+    v.coverage.update({
+        "states": mc["distinct"], "transitions": mc["states"],
+        "traces_validated_against_impl": s["scenarios"], "requests_judged": s["requests"],
+        "mc_bounds": "all query/vector triples with components -2..2 in dimension 2, cosine and L2: the exact similarity comparison is a strict weak order, agrees with squared distance, unit scores only for parallel / orthogonal vectors",
+        "samples": s["samples"], "exhaustive": False,
+    })
+    v.assumptions += [
+        "vector components are small integers (exact in f32); similarities are judged by squared / cross-multiplied integer comparisons, scores in fixed point 1e-3",
+        "segments hold at most 14 vectors (< HNSW neighbour limit 16): the graph search is exhaustive, so exact k-NN is asserted; recall above that limit is not",
+        "hybrid requests use plain term queries (outside known finding S07a) with 0 < alpha < 1; the text score is the observation of the same request without the vector clause",
+        "a wrong-dimension vector counts as rejected when add or the following commit refuses it (the add/commit disagreement is C15's subject)",
+    ]
